@@ -154,7 +154,11 @@ func main() {
 		if len(seq) == 0 {
 			k.Name = "empty"
 		}
-		scs = append(scs, harness.Scenario{Name: fmt.Sprintf("%s/wg%dx%d/sb=%v/res%d", k.Name, g.WGSize, g.NumWG, o.Scoreboard, o.Resident), Bound: bound, Body: body(k, g, o)})
+		name := fmt.Sprintf("%s/wg%dx%d/sb=%v/res%d", k.Name, g.WGSize, g.NumWG, o.Scoreboard, o.Resident)
+		if o.SlowScalar+o.SlowVector+o.SlowInst > 0 {
+			name += fmt.Sprintf("/slow-memory(s%d,v%d,i%d)", o.SlowScalar, o.SlowVector, o.SlowInst)
+		}
+		scs = append(scs, harness.Scenario{Name: name, Bound: bound, Body: body(k, g, o)})
 	}
 	b1, b2 := 1, 0
 	if r.Thorough() {
@@ -216,6 +220,24 @@ func main() {
 			for _, a := range good {
 				for _, b := range good {
 					add([]string{a, b}, g, opts[0], b2)
+				}
+			}
+		}
+		// sustained back-pressure: 16 wavefronts (two resident work-groups of 512) run memory-heavy pairs against
+		// a memory that takes one request per N cycles, so that the CU's 32-entry port buffers and the units'
+		// own queues fill up (templates with one dword per work-item only: 1024 work-items fit the regions)
+		memFam := []string{"smem_x2", "flat_ld_dword_0", "flat_st_dword_ld", "flat_two_outstanding", "lds_rw32"}
+		slow := []cuworld.TimingOpts{
+			{Resident: 2, Delays: []int{7, 50}, NoAddrAttribution: true, SlowScalar: 50, Horizon: 80000},
+			{Resident: 2, Delays: []int{7, 50}, NoAddrAttribution: true, SlowVector: 30, Horizon: 80000},
+			{Resident: 2, Delays: []int{7, 50}, NoAddrAttribution: true, SlowScalar: 20, SlowVector: 20, SlowInst: 10, Horizon: 80000},
+		}
+		for _, o := range slow {
+			for _, a := range memFam {
+				for _, b := range memFam {
+					if !failed[a] && !failed[b] {
+						add([]string{a, b}, geo{512, 2}, o, 0)
+					}
 				}
 			}
 		}
